@@ -600,3 +600,6 @@ def field_names_of(ctx: Ctx):
             if isinstance(n, ast.Subscript) and isinstance(n.ctx, ast.Store) and isinstance(n.value, ast.Attribute) and isinstance(n.value.value, ast.Name) and n.value.value.id == "self":
                 names.add(n.value.attr)
     return names
+
+RULES.setdefault("C18", []).append(Rule("C18.R8", "a 'prefix:local' lookup string resolves through the registered prefix before the renamed-prefix memo (shared with C03.R7)", 1, c03_r7, "F-PATH",
+                                        "get_record('p:x') denotes the URI the container's own declaration of p gives"))
